@@ -25,6 +25,7 @@ struct Th {
     rank: i64,
     status: Status,
     label: String,
+    handle: std::thread::Thread,
 }
 
 #[derive(Clone, Debug, PartialEq, Eq)]
@@ -56,6 +57,14 @@ struct St {
     aborted: bool,
     order: Order,
     events: Vec<String>,
+    /// arrival-order reduction: after a worker (rank < MAX/2) ran, only workers of HIGHER rank (and the reporter) are enabled
+    ascending_workers: bool,
+    /// run threads in exactly this order (by name); overrides prefix/default
+    script: Option<Vec<String>>,
+    script_pos: usize,
+    /// max consecutive grants to the high-rank thread (reporter) while workers are parked; 0 = unlimited
+    idle_bound: usize,
+    idle_run: usize,
 }
 
 pub struct Session {
@@ -87,10 +96,30 @@ pub struct Outcome {
 impl Session {
     pub fn new(expected: usize, prefix: Vec<u32>, order: Order) -> Arc<Session> {
         Arc::new(Session {
-            m: Mutex::new(St { threads: vec![], expected, token: None, last: None, prefix, decisions: vec![], trace: vec![], error: None, aborted: false, order, events: vec![] }),
+            m: Mutex::new(St { threads: vec![], expected, token: None, last: None, prefix, decisions: vec![], trace: vec![], error: None, aborted: false, order, events: vec![], ascending_workers: false, script: None, script_pos: 0, idle_bound: 0, idle_run: 0 }),
             cv: Condvar::new(),
             watchdog: Duration::from_secs(20),
         })
+    }
+
+    /// Arrival-order mode (see DESIGN C10): ascending-worker reduction and an idle-poll bound for the reporter.
+    pub fn set_arrival_mode(&self, idle_bound: usize) {
+        let mut st = self.lock();
+        st.ascending_workers = true;
+        st.idle_bound = idle_bound;
+    }
+
+    /// Run threads in exactly the given order (by name).
+    pub fn set_script(&self, names: Vec<String>) {
+        self.lock().script = Some(names);
+    }
+
+    fn wake_all(st: &St) {
+        for t in st.threads.iter() {
+            if t.status == Status::Parked {
+                t.handle.unpark();
+            }
+        }
     }
 
     fn lock(&self) -> std::sync::MutexGuard<'_, St> {
@@ -108,7 +137,7 @@ impl Session {
             st.error = Some(why.to_string());
         }
         st.aborted = true;
-        self.cv.notify_all();
+        Self::wake_all(&st);
     }
 
     pub fn is_aborted(&self) -> bool {
@@ -124,7 +153,7 @@ impl Session {
         if let Some(i) = st.threads.iter().position(|t| t.name == name) {
             return i;
         }
-        st.threads.push(Th { name: name.to_string(), rank, status: Status::Running, label: String::new() });
+        st.threads.push(Th { name: name.to_string(), rank, status: Status::Running, label: String::new(), handle: std::thread::current() });
         let idx = st.threads.len() - 1;
         let g = ExitGuard { session: self.clone(), idx };
         GUARD.with(|c| *c.borrow_mut() = Some(g));
@@ -148,12 +177,14 @@ impl Session {
                 st.token = None;
                 return;
             }
-            let (g, to) = self.cv.wait_timeout(st, self.watchdog).unwrap_or_else(|e| e.into_inner());
-            st = g;
-            if to.timed_out() && st.token != Some(me) && !st.aborted {
+            drop(st);
+            let t0 = std::time::Instant::now();
+            std::thread::park_timeout(self.watchdog);
+            st = self.lock();
+            if t0.elapsed() >= self.watchdog && st.token != Some(me) && !st.aborted {
                 st.error.get_or_insert_with(|| format!("watchdog: thread {name} parked at {label} for {:?} (a thread blocks outside the controlled points, or a registered thread never arrived)", self.watchdog));
                 st.aborted = true;
-                self.cv.notify_all();
+                Self::wake_all(&st);
             }
         }
     }
@@ -166,7 +197,7 @@ impl Session {
         if c >= n {
             st.error.get_or_insert_with(|| format!("replay divergence: decision {k} ({kind}) has {n} alternatives, prefix asks for {c}"));
             st.aborted = true;
-            self.cv.notify_all();
+            Self::wake_all(&st);
             drop(st);
             panic!("e2: replay divergence");
         }
@@ -191,7 +222,6 @@ impl Session {
         }
         st.threads[idx].status = Status::Exited;
         self.maybe_decide(&mut st);
-        self.cv.notify_all();
     }
 
     fn maybe_decide(&self, st: &mut St) {
@@ -219,6 +249,51 @@ impl Session {
                 }
             }
         }
+        let half = i64::MAX / 2;
+        if st.ascending_workers {
+            if let Some(l) = st.last {
+                let lr = st.threads[l].rank;
+                if lr < half {
+                    let keep: Vec<usize> = enabled.iter().cloned().filter(|i| st.threads[*i].rank >= half || st.threads[*i].rank > lr).collect();
+                    if !keep.is_empty() {
+                        enabled = keep;
+                    }
+                }
+            }
+        }
+        if st.idle_bound > 0 && st.idle_run >= st.idle_bound {
+            let keep: Vec<usize> = enabled.iter().cloned().filter(|i| st.threads[*i].rank < half).collect();
+            if !keep.is_empty() {
+                enabled = keep;
+            }
+        }
+        if let Some(script) = st.script.clone() {
+            let want = script.get(st.script_pos).cloned();
+            st.script_pos += 1;
+            let pick = want.as_ref().and_then(|w| enabled.iter().position(|i| st.threads[*i].name == *w));
+            match pick {
+                Some(p) => {
+                    let t = enabled[p];
+                    st.threads[t].status = Status::Running;
+                    st.token = Some(t);
+                    st.last = Some(t);
+                    let s = format!("{}@{}", st.threads[t].name, st.threads[t].label);
+                    st.trace.push(s);
+                    st.threads[t].handle.unpark();
+                    return;
+                }
+                None => {
+                    // script exhausted or names not enabled: fall through to the default choice when exhausted
+                    if want.is_some() {
+                        let names: Vec<String> = enabled.iter().map(|i| st.threads[*i].name.clone()).collect();
+                        st.error.get_or_insert_with(|| format!("script step {} wants {:?}, enabled {:?}", st.script_pos - 1, want, names));
+                        st.aborted = true;
+                        Self::wake_all(st);
+                        return;
+                    }
+                }
+            }
+        }
         let choice = if enabled.len() == 1 {
             0
         } else {
@@ -227,7 +302,7 @@ impl Session {
             if c as usize >= enabled.len() {
                 st.error.get_or_insert_with(|| format!("replay divergence: decision {k} (sched) has {} enabled threads, prefix asks for {c}", enabled.len()));
                 st.aborted = true;
-                self.cv.notify_all();
+                Self::wake_all(st);
                 return;
             }
             let names: Vec<String> = enabled.iter().map(|i| st.threads[*i].name.clone()).collect();
@@ -235,12 +310,17 @@ impl Session {
             c as usize
         };
         let t = enabled[choice];
+        if st.threads[t].rank >= half && enabled.len() > 1 {
+            st.idle_run += 1;
+        } else if st.threads[t].rank < half {
+            st.idle_run = 0;
+        }
         st.threads[t].status = Status::Running;
         st.token = Some(t);
         st.last = Some(t);
         let s = format!("{}@{}", st.threads[t].name, st.threads[t].label);
         st.trace.push(s);
-        self.cv.notify_all();
+        st.threads[t].handle.unpark();
     }
 
     pub fn outcome(&self) -> Outcome {
